@@ -377,37 +377,27 @@ theorem addArgument_shape (f : Field V) :
   | value v n => cases n <;> rfl
   | factory r => rfl
 
-/-- the closed form of the set-up outcome for the custom keys `main` adds -/
-def shapeDefect (ty : TyClass) (pos : Bool) (dk : DK) : Bool :=
-  pos && !(ty == .choice) && !(ty == .dc) && (ty == .optional || dk == .litNone)
-
-theorem addArgument_shape_closed (ty : TyClass) (pos : Bool) (dk : DK) :
-    (addArgument (shapeField ty pos dk [S "help"]) == .typeError) = shapeDefect ty pos dk ∧
-    (addArgument (shapeField ty pos dk []) == .typeError) = shapeDefect ty pos dk := by
+/-- every combination of type class, positional flag and kind of default is accepted by
+    `add_argument`, with and without the `help` custom key (72 cases, decided) — since 302ccc9 also
+    the positional `Optional[...]` / `= None` ones -/
+theorem addArgument_shape_ok (ty : TyClass) (pos : Bool) (dk : DK) :
+    addArgument (shapeField ty pos dk [S "help"]) = .ok ∧ addArgument (shapeField ty pos dk []) = .ok := by
   cases ty <;> cases pos <;> cases dk <;> decide
 
-/-- **The only set-up failure.** A parameter's option cannot be added to the parser exactly when it
-    is positional-only, not a `Literal`/`choice` nor a dataclass, and either `Optional[...]` or
-    defaulting to the literal `None` (argparse: "'required' is an invalid argument for
-    positionals"). Every other combination of type class (`bool` included), kind and default sets
-    up. -/
-def setupDefect (p : Param V) : Bool :=
-  shapeDefect (annClass p.ann) p.isPosOnly (dkOf (mainDefault p.dflt))
-
-theorem c20_addArgument_closed (p : Param V) :
-    addArgument (mainField p) = .typeError ↔ setupDefect p = true := by
+/-- **Set-up never fails (closed form).** Whatever the parameter — every type class (`bool`,
+    `Optional`, dataclass, …), every kind (positional-only included), every default — the option /
+    positional `main` synthesises for it is accepted by the parser. -/
+theorem c20_addArgument_closed (p : Param V) : addArgument (mainField p) = .ok := by
   rw [addArgument_shape]
-  have h := (addArgument_shape_closed (mainField p).ty (mainField p).positional
-    (dkOf (mainField p).default)).1
   have hc : (mainField p).custom = [S "help"] := rfl
   rw [hc]
-  unfold setupDefect
-  have h1 : (mainField p).ty = annClass p.ann := rfl
-  have h2 : (mainField p).positional = p.isPosOnly := rfl
-  have h3 : (mainField p).default = mainDefault p.dflt := rfl
-  rw [h1, h2, h3] at h ⊢
-  rw [← h]
-  cases addArgument (shapeField (annClass p.ann) p.isPosOnly (dkOf (mainDefault p.dflt)) [S "help"]) <;> simp
+  exact (addArgument_shape_ok _ _ _).1
+
+theorem addArgument_plain_ok (p : Param V) : addArgument (plainField p) = .ok := by
+  rw [addArgument_shape]
+  have hc : (plainField p).custom = [] := rfl
+  rw [hc]
+  exact (addArgument_shape_ok _ _ _).2
 
 /-- **The synthesised fields are the hand-written ones (item by item).** For a parameter whose
     default is not mutable, `main`'s field and the independently written field of the equivalent
@@ -427,21 +417,10 @@ theorem c20_fields_agree (p : Param V) (hm : p.mutableDefault = false) :
   · cases kind <;> rfl
 
 /-- per parameter: the synthesised field and the hand-written one meet the same fate in
-    `add_argument` — for every type class (including `bool`), kind and non-mutable default -/
-theorem addArgument_main_eq_plain (p : Param V) (hm : p.mutableDefault = false) :
+    `add_argument` — for every type class (including `bool`), kind and default -/
+theorem addArgument_main_eq_plain (p : Param V) :
     addArgument (mainField p) = addArgument (plainField p) := by
-  obtain ⟨_, hty, hd, hpos⟩ := c20_fields_agree p hm
-  rw [addArgument_shape (mainField p), addArgument_shape (plainField p), ← hty, ← hd, ← hpos]
-  have hc : (mainField p).custom = [S "help"] := rfl
-  have hp : (plainField p).custom = [] := rfl
-  rw [hc, hp]
-  have h := addArgument_shape_closed (mainField p).ty (mainField p).positional (dkOf (mainField p).default)
-  generalize addArgument (shapeField (mainField p).ty (mainField p).positional
-    (dkOf (mainField p).default) [S "help"]) = x at h
-  generalize addArgument (shapeField (mainField p).ty (mainField p).positional
-    (dkOf (mainField p).default) []) = y at h
-  obtain ⟨h1, h2⟩ := h
-  cases x <;> cases y <;> simp_all
+  rw [c20_addArgument_closed, addArgument_plain_ok]
 
 theorem setup_eq_all (l : List (Field V)) :
     setup l = if l.all (fun f => addArgument f == .ok) then .ok else .typeError := by
@@ -475,57 +454,39 @@ def NoMutableDefault (sig : List (Param V)) : Prop := ∀ p ∈ sig, p.mutableDe
 instance (sig : List (Param V)) : Decidable (NoMutableDefault sig) := by
   unfold NoMutableDefault; exact List.decidableBAll _ _
 
-/-- **All supported types.** `main` adds no set-up failure of its own: for every signature without
-    a mutable default — any number of parameters, every type class including `bool`, every kind —
-    the class it synthesises can be added to a parser exactly when the (independently written)
-    equivalent dataclass can. -/
-theorem c20_all_types (sig : List (Param V)) (hm : NoMutableDefault sig) :
-    setup (mainFields sig) = setup (plainFields sig) := by
-  rw [setup_eq_all, setup_eq_all]
-  unfold mainFields plainFields
-  rw [stableSort_eq_partition, stableSort_eq_partition, all_partition, all_partition,
-    List.all_map, List.all_map]
-  have : ∀ p ∈ sig, ((fun f => addArgument f == AddOutcome.ok) ∘ mainField) p
-      = ((fun f => addArgument f == AddOutcome.ok) ∘ plainField) p := by
-    intro p hp
-    simp only [Function.comp, addArgument_main_eq_plain p (hm p hp)]
-  rw [all_congr_mem _ _ _ this]
-
-/-- **When set-up succeeds (closed form).** The parser for the synthesised class is built without
-    error for every signature none of whose parameters is a positional-only Optional / `= None`
-    parameter — `bool` parameters, dataclass parameters, every default included. -/
-theorem c20_setup_ok (sig : List (Param V)) (h : ∀ p ∈ sig, setupDefect p = false) :
-    setup (mainFields sig) = .ok := by
+/-- **When set-up succeeds: always.** The parser for the synthesised class is built without error
+    for every signature — any number of parameters, every type class including `bool`, every kind
+    and default. -/
+theorem c20_setup_ok (sig : List (Param V)) : setup (mainFields sig) = .ok := by
   rw [setup_eq_all]
   unfold mainFields
   rw [stableSort_eq_partition, all_partition, List.all_map]
   have : sig.all ((fun f => addArgument f == AddOutcome.ok) ∘ mainField) = true := by
     rw [List.all_eq_true]
-    intro p hp
-    have hne : addArgument (mainField p) ≠ .typeError := fun e => by
-      have := (c20_addArgument_closed p).mp e; rw [h p hp] at this; cases this
-    simp only [Function.comp]
-    cases hx : addArgument (mainField p) with
-    | ok => rfl
-    | typeError => exact absurd hx hne
+    intro p _
+    simp [Function.comp, c20_addArgument_closed p]
   rw [this]; rfl
 
-/-- … and conversely a single such parameter makes set-up fail for every command line -/
-theorem c20_setup_fails (sig : List (Param V)) (p : Param V) (hp : p ∈ sig) (hd : setupDefect p = true) :
-    setup (mainFields sig) = .typeError := by
+theorem plain_setup_ok (sig : List (Param V)) : setup (plainFields sig) = .ok := by
   rw [setup_eq_all]
-  unfold mainFields
+  unfold plainFields
   rw [stableSort_eq_partition, all_partition, List.all_map]
-  have : sig.all ((fun f => addArgument f == AddOutcome.ok) ∘ mainField) = false := by
-    rw [List.all_eq_false]
-    refine ⟨p, hp, ?_⟩
-    simp [Function.comp, (c20_addArgument_closed p).mpr hd]
+  have : sig.all ((fun f => addArgument f == AddOutcome.ok) ∘ plainField) = true := by
+    rw [List.all_eq_true]
+    intro p _
+    simp [Function.comp, addArgument_plain_ok p]
   rw [this]; rfl
+
+/-- **All supported types.** `main` adds no set-up failure of its own: for every signature the class
+    it synthesises can be added to a parser exactly when the (independently written) equivalent
+    dataclass can — both always can. -/
+theorem c20_all_types (sig : List (Param V)) :
+    setup (mainFields sig) = setup (plainFields sig) := by
+  rw [c20_setup_ok, plain_setup_ok]
 
 /-- regression (D4): `@main def f(a: int = 1, flag: bool = False)` sets up and is called with the
     parsed values; `name` no longer reaches `BooleanOptionalAction`, `help` does and is accepted -/
 example : setup (mainFields d4Sig) = .ok := by decide
-example : ∀ p ∈ d4Sig, setupDefect p = false := by decide
 example : NoMutableDefault d4Sig := by decide
 example : mainRun d4Sig (.ok [(S "a", 1), (S "flag", 0)]) 7 [] []
     = .call { args := [], kwargs := [(S "a", 1), (S "flag", 0)] } := by decide
@@ -542,7 +503,7 @@ def FullMainCalls : Prop :=
     ∃ c, mainRun sig (.ok vals) 0 [] [] = .call c ∧
       Callables.bind sig c.args c.kwargs = some (sig.map (fun p => (p.name, lookupD vals 0 p.name)))
 
-/-- finding C20-posonly-optional: `def f(o: Optional[int], /)` (also `= None`) -/
+/-- regression (302ccc9): `def f(o: Optional[int], /)` (also `= None`) -/
 def posOptionalSig : List (Param Nat) :=
   [ { name := S "o", kind := .posOnly, ann := some .optional, dflt := none } ]
 
@@ -551,30 +512,29 @@ def mutableSig : List (Param Nat) :=
   [ { name := S "xs", kind := .posOrKw, ann := some .list, dflt := some (.value 12 false),
       mutableDefault := true } ]
 
-/-- finding C20-posonly-bool: `def f(flag: bool = False, /)`: set-up succeeds — the failure
-    (NotImplementedError in `BooleanOptionalAction.__call__`) is inside the parse, a parameter of the
-    model -/
+/-- regression (5a62da3): `def f(flag: bool = False, /)` -/
 def posBoolSig : List (Param Nat) :=
   [ { name := S "flag", kind := .posOnly, ann := some .bool, dflt := some (.value 0 false) } ]
 
-theorem c20_posonly_optional_witness :
-    ValidSig posOptionalSig ∧ mainRun posOptionalSig (.ok [(S "o", 3)]) 0 [] [] = .raise (S "TypeError") ∧
-    setup (plainFields posOptionalSig) = .typeError :=
-  ⟨⟨by simp [posOptionalSig], by decide, by decide⟩, by decide, by decide⟩
+/-- regressions for the repaired findings C20-posonly-optional and C20-posonly-bool: the parser is
+    built and the parsed value is passed positionally -/
+example : setup (mainFields posOptionalSig) = .ok ∧
+    mainRun posOptionalSig (.ok [(S "o", 3)]) 0 [] [] = .call { args := [3], kwargs := [] } := by decide
+example : S "required" ∉ (argOptionKeys (mainField (posOptionalSig.getD 0 default))).1 := by decide
+example : setup (mainFields posBoolSig) = .ok ∧
+    mainRun posBoolSig (.ok [(S "flag", 1)]) 0 [] [] = .call { args := [1], kwargs := [] } := by decide
 
 theorem c20_mutable_default_witness :
     ValidSig mutableSig ∧ mainRun mutableSig (.ok [(S "xs", 12)]) 0 [] [] = .raise (S "ValueError") ∧
     setup (plainFields mutableSig) = .ok :=
   ⟨⟨by simp [mutableSig], by decide, by decide⟩, by decide, by decide⟩
 
-theorem c20_posonly_bool_setup_ok : setup (mainFields posBoolSig) = .ok ∧
-    ∀ e, mainRun posBoolSig (.raise e) 0 [] [] = .raise e := ⟨by decide, fun _ => rfl⟩
-
-/-- **Witness.** The full statement is false for the code as it is (two independent reasons). -/
+/-- **Witness.** The full statement is false for the code as it is: a mutable signature default
+    (open finding C20-mutable-default). -/
 theorem c20_main_calls_witness : ¬ FullMainCalls := by
   intro h
-  obtain ⟨c, hc, _⟩ := h posOptionalSig c20_posonly_optional_witness.1 [(S "o", 3)] (by decide)
-  rw [c20_posonly_optional_witness.2.1] at hc
+  obtain ⟨c, hc, _⟩ := h mutableSig c20_mutable_default_witness.1 [(S "xs", 12)] (by decide)
+  rw [c20_mutable_default_witness.2.1] at hc
   cases hc
 
 theorem mainFields_not_mutable (sig : List (Param V)) (hm : NoMutableDefault sig) :
@@ -586,18 +546,18 @@ theorem mainFields_not_mutable (sig : List (Param V)) (hm : NoMutableDefault sig
   have := hm p (mem_sortedSig.mp hp)
   simp [mainField, this]
 
-/-- the whole run, **partial**: a legal signature without a mutable default and without a
-    positional-only Optional / `= None` parameter, whose command line parses (every parameter has a
-    parsed value), ends in exactly the call that binds every parameter to its parsed value -/
+/-- the whole run, **partial** (`NoMutableDefault`): a legal signature without a mutable default whose
+    command line parses (every parameter has a parsed value) ends in exactly the call that binds
+    every parameter to its parsed value -/
 theorem c20_main_run (sig : List (Param V)) (hv : ValidSig sig) (d : V)
-    (vals : List (Str × V)) (hm : NoMutableDefault sig) (hs : ∀ p ∈ sig, setupDefect p = false)
+    (vals : List (Str × V)) (hm : NoMutableDefault sig)
     (hcov : ∀ p ∈ sig, ∃ v, vals.lookup p.name = some v) :
     ∃ c, mainRun sig (.ok vals) d [] [] = .call c ∧
       ∀ p ∈ sig, ∃ v, vals.lookup p.name = some v ∧
         (Callables.bind sig c.args c.kwargs).map (fun b => b.lookup p.name) = some (some v) := by
   have hmut := mainFields_not_mutable sig hm
   refine ⟨mainCall (mainFields sig) (lookupD vals d) [] [], ?_, ?_⟩
-  · simp [mainRun, hmut, c20_setup_ok sig hs]
+  · simp [mainRun, hmut, c20_setup_ok sig]
   · intro p hp
     obtain ⟨v, hv'⟩ := hcov p hp
     refine ⟨v, hv', ?_⟩
@@ -608,12 +568,12 @@ theorem c20_main_run (sig : List (Param V)) (hv : ValidSig sig) (d : V)
     rw [← this]
     exact lookup_map_some sig (lookupD vals d) p hp
 
-example : NoMutableDefault exampleSig ∧ (∀ p ∈ exampleSig, setupDefect p = false) := by decide
+example : NoMutableDefault exampleSig := by decide
 
 /-- a rejected command line is rejected by `main` with the same status, and no call is made -/
-theorem c20_main_rejects (sig : List (Param V)) (d : V) (code : Nat) (hm : NoMutableDefault sig)
-    (hs : ∀ p ∈ sig, setupDefect p = false) : mainRun sig (.exit code) d [] [] = .exit code := by
-  simp [mainRun, mainFields_not_mutable sig hm, c20_setup_ok sig hs]
+theorem c20_main_rejects (sig : List (Param V)) (d : V) (code : Nat) (hm : NoMutableDefault sig) :
+    mainRun sig (.exit code) d [] [] = .exit code := by
+  simp [mainRun, mainFields_not_mutable sig hm, c20_setup_ok sig]
 
 /-! ### the cache of `config_for` -/
 
@@ -696,14 +656,21 @@ theorem c20_cache_spelling_witness :
                    { target := 0, ignore := .absent, frozen := none, defaults := [(S "c", S "1"), (S "b", S "3")] } ]).1
       = [0, 1, 2, 3, 4, 5] := by decide
 
-/-- finding C20-cache-untyped-key: the cache key holds `**defaults` values up to Python `==`
-    (`lru_cache(typed=False)`): `b=1`, `b=1.0`, `b=True` are one key (here: one equality class
-    `num:1`), so the class derived for the first spelling — with *its* default — is returned for
-    the others -/
-theorem c20_cache_conflation_witness :
-    (runCalls {} [ { target := 0, ignore := .absent, frozen := none, defaults := [(S "b", S "num:1")] },
-                   { target := 0, ignore := .absent, frozen := none, defaults := [(S "b", S "num:1")] } ]).1
-      = [0, 0] := by decide
+/-- **Typed keys.** Two hashable requests that differ in anything — the callable, the way
+    `ignore_args` is written, `frozen`, the name, order or *typed value* of a `**defaults` entry —
+    are different cache keys and get different class objects (since 4d0f313 `lru_cache(typed=True)`:
+    `b=1`, `b=1.0` and `b=True` are three different values). -/
+theorem c20_cache_typed (k1 k2 : CacheKey) (h1 : k1.hashable = true) (h2 : k2.hashable = true)
+    (hne : k1 ≠ k2) : (runCalls {} [k1, k2]).1 = [0, 1] := by
+  have hb : (k2 == k1) = false := by simpa using fun e : k2 = k1 => hne e.symm
+  simp [runCalls, cachedCall, h1, h2, List.lookup_cons, hb]
+
+/-- regression (4d0f313, finding C20-cache-untyped-key): `config_for(f, b=1)`, `b=True`, `b=1.0` -/
+example : (runCalls {} [ { target := 0, ignore := .absent, frozen := none, defaults := [(S "b", S "1")] },
+                         { target := 0, ignore := .absent, frozen := none, defaults := [(S "b", S "True")] },
+                         { target := 0, ignore := .absent, frozen := none, defaults := [(S "b", S "1.0")] },
+                         { target := 0, ignore := .absent, frozen := none, defaults := [(S "b", S "1")] } ]).1
+    = [0, 1, 2, 0] := by decide
 
 example : (runCalls {} [ { target := 0, ignore := .tuple [S "a"], frozen := none, defaults := [] },
                          { target := 0, ignore := .absent, frozen := none, defaults := [] },
@@ -797,8 +764,7 @@ theorem dictUpdate_cons (d : List (Str × V)) (k : Str) (v : V) (rest : List (St
 /-- **Later kwargs win.** In the keyword dictionary `Partial.__call__` builds, a name carries the
     explicitly passed value if there is one, the parsed field value otherwise. -/
 theorem c20_partial_kwargs_win (fv kw : List (Str × V)) (n : Str) :
-    (partialCall fv ([] : List V) kw).kwargs.lookup n = orElse' (lastLookup kw n) (fv.lookup n) := by
-  simp only [partialCall]
+    (dictUpdate fv kw).lookup n = orElse' (lastLookup kw n) (fv.lookup n) := by
   induction kw generalizing fv with
   | nil => rfl
   | cons e rest ih =>
@@ -827,11 +793,101 @@ theorem keys_dictUpdate (d kw : List (Str × V)) :
           exact Or.inr ⟨(k, v), by simp, hk⟩
     · exact Or.inr ⟨e', by simp [he'], hk⟩
 
-/-- the named exclusion of finding C20-partial-posonly -/
-def NoPosOnly (sig : List (Param V)) : Prop := ∀ p ∈ sig, p.isPosOnly = false
+/-! #### positional-only parameters are moved out of the keyword dictionary (8ca70f1) -/
 
-instance (sig : List (Param V)) : Decidable (NoPosOnly sig) := by
-  unfold NoPosOnly; exact List.decidableBAll _ _
+theorem lookup_filter_ne (d : List (Str × V)) (k n : Str) (h : n ≠ k) :
+    (d.filter (fun e => !(e.1 == k))).lookup n = d.lookup n := by
+  induction d with
+  | nil => rfl
+  | cons x xs ih =>
+    obtain ⟨a, b⟩ := x
+    by_cases hak : a = k
+    · subst hak
+      have : (n == a) = false := by simpa using h
+      simp [List.filter, List.lookup_cons, this, ih]
+    · have hak' : (a == k) = false := by simpa using hak
+      simp only [List.filter, hak', Bool.not_false, List.lookup_cons]
+      cases (n == a) <;> simp [ih]
+
+theorem lookup_filter_self (d : List (Str × V)) (k : Str) :
+    (d.filter (fun e => !(e.1 == k))).lookup k = none := by
+  induction d with
+  | nil => rfl
+  | cons x xs ih =>
+    obtain ⟨a, b⟩ := x
+    by_cases hak : a = k
+    · subst hak; simp [List.filter, ih]
+    · have hak' : (a == k) = false := by simpa using hak
+      have hka : (k == a) = false := by simpa using fun e : k = a => hak e.symm
+      simp [List.filter, hak', List.lookup_cons, hka, ih]
+
+theorem lookup_ne_none_of_mem (d : List (Str × V)) (e : Str × V) (h : e ∈ d) : d.lookup e.1 ≠ none := by
+  induction d with
+  | nil => cases h
+  | cons x xs ih =>
+    obtain ⟨a, b⟩ := x
+    simp only [List.lookup_cons]
+    cases hk : (e.1 == a) with
+    | true => simp
+    | false =>
+      rcases List.mem_cons.mp h with h | h
+      · subst h; simp at hk
+      · exact ih h
+
+/-- what the loop of `Partial.__call__` does when every positional-only parameter has a value in the
+    keyword dictionary: those values leave the dictionary, in signature order; nothing else changes -/
+theorem movePositional_spec (w : Str → V) (sig : List (Param V)) (d : List (Str × V))
+    (hn : sig.Pairwise (fun a b => a.name ≠ b.name)) (hpre : posOnlyPrefix sig = true)
+    (hpos : ∀ p ∈ sig, p.isPosOnly = true → d.lookup p.name = some (w p.name)) :
+    (movePositional sig 0 d).1 = (sig.filter (·.isPosOnly)).map (fun p => w p.name) ∧
+    (∀ p ∈ sig, p.isPosOnly = true → (movePositional sig 0 d).2.lookup p.name = none) ∧
+    (∀ n, (∀ p ∈ sig, p.isPosOnly = true → p.name ≠ n) → (movePositional sig 0 d).2.lookup n = d.lookup n) ∧
+    (∀ e ∈ (movePositional sig 0 d).2, e ∈ d) := by
+  induction sig generalizing d with
+  | nil => exact ⟨rfl, fun _ h _ => (by cases h), fun _ _ => rfl, fun _ h => h⟩
+  | cons p ps ih =>
+    rw [List.pairwise_cons] at hn
+    cases hp : p.isPosOnly with
+    | true =>
+      have hk : p.kind = .posOnly := by
+        unfold Param.isPosOnly at hp; cases hkk : p.kind <;> simp_all
+      have hpre' : posOnlyPrefix ps = true := by simpa [posOnlyPrefix, hp] using hpre
+      have hl := hpos p (by simp) hp
+      have hpos' : ∀ q ∈ ps, q.isPosOnly = true →
+          (d.filter (fun e => !(e.1 == p.name))).lookup q.name = some (w q.name) := by
+        intro q hq hqp
+        rw [lookup_filter_ne _ _ _ (fun e => hn.1 q hq e.symm)]
+        exact hpos q (by simp [hq]) hqp
+      obtain ⟨i1, i2, i3, i4⟩ := ih (d.filter (fun e => !(e.1 == p.name))) hn.2 hpre' hpos'
+      have hmv : movePositional (p :: ps) 0 d =
+          (w p.name :: (movePositional ps 0 (d.filter (fun e => !(e.1 == p.name)))).1,
+           (movePositional ps 0 (d.filter (fun e => !(e.1 == p.name)))).2) := by
+        simp [movePositional, hk, hl]
+      rw [hmv]
+      refine ⟨by simp [List.filter, hp, i1], ?_, ?_, ?_⟩
+      · intro q hq hqp
+        rcases List.mem_cons.mp hq with rfl | hq'
+        · rw [i3 q.name (fun r hr _ => fun e => hn.1 r hr e.symm)]
+          exact lookup_filter_self d q.name
+        · exact i2 q hq' hqp
+      · intro n hne
+        rw [i3 n (fun q hq hqp => hne q (by simp [hq]) hqp)]
+        exact lookup_filter_ne d p.name n (fun e => hne p (by simp) hp e.symm)
+      · intro e he
+        exact (List.mem_filter.mp (i4 e he)).1
+    | false =>
+      have hall : ps.all (fun q => !q.isPosOnly) = true := by simpa [posOnlyPrefix, hp] using hpre
+      have hnil : ps.filter (·.isPosOnly) = [] := by
+        rw [List.filter_eq_nil_iff]; intro a ha
+        have := (List.all_eq_true.mp hall) a ha; simpa using this
+      have hk : (p.kind == Kind.posOnly) = false := hp
+      have hmv : movePositional (p :: ps) 0 d = ([], d) := by simp [movePositional, hk]
+      rw [hmv]
+      refine ⟨by simp [List.filter, hp, hnil], ?_, fun _ _ => rfl, fun _ h => h⟩
+      intro q hq hqp
+      rcases List.mem_cons.mp hq with rfl | hq'
+      · rw [hp] at hqp; cases hqp
+      · have := (List.all_eq_true.mp hall) q hq'; simp [hqp] at this
 
 /-- what a parameter ends up with when the parsed object is called: the explicit keyword if there
     is one, else the parsed field value, else (an ignored / skipped parameter) the callee's own
@@ -839,6 +895,11 @@ instance (sig : List (Param V)) : Decidable (NoPosOnly sig) := by
 def CallValue (fv kw : List (Str × V)) (p : Param V) (v : V) : Prop :=
   orElse' (lastLookup kw p.name) (fv.lookup p.name) = some v ∨
   (orElse' (lastLookup kw p.name) (fv.lookup p.name) = none ∧ p.defaultValue = some v)
+
+/-- every positional-only parameter has a value among the fields / explicit keywords (the loop of
+    `Partial.__call__` stops at the first one that has none — named exclusion) -/
+def PosOnlySupplied (sig : List (Param V)) (fv kw : List (Str × V)) (w : Str → V) : Prop :=
+  ∀ p ∈ sig, p.isPosOnly = true → orElse' (lastLookup kw p.name) (fv.lookup p.name) = some (w p.name)
 
 /-- **Full statement.** Calling the parsed object invokes the target with exactly those values:
     whenever every keyword names a parameter and every parameter has a `CallValue`, the call binds
@@ -848,84 +909,113 @@ def FullPartialCall : Prop :=
     sig.Pairwise (fun a b => a.name ≠ b.name) → posOnlyPrefix sig = true →
     (∀ e ∈ fv, ∃ p ∈ sig, p.name = e.1) → (∀ e ∈ kw, ∃ p ∈ sig, p.name = e.1) →
     (∀ p ∈ sig, CallValue fv kw p (w p.name)) →
-    Callables.bind sig (partialCall fv [] kw).args (partialCall fv [] kw).kwargs
+    Callables.bind sig (partialCall sig fv [] kw).args (partialCall sig fv [] kw).kwargs
       = some (sig.map (fun p => (p.name, w p.name)))
 
-/-- finding C20-partial-posonly: `def f(a: int, /, b: int = 2)`, parsed `a=7` -/
+/-- regression (8ca70f1, finding C20-partial-posonly): `def f(a: int, /, b: int = 2)`, parsed `a=7` -/
 def posOnlyTarget : List (Param Nat) :=
   [ { name := S "a", kind := .posOnly, ann := some .plain, dflt := none },
     { name := S "b", kind := .posOrKw, ann := some .plain, dflt := some (.value 2 false) } ]
 
-/-- **Witness.** `Partial.__call__` passes every field by keyword, so a target with a
-    positional-only parameter cannot be called: CPython raises TypeError (`bind = none`). -/
-theorem c20_partial_posonly_witness :
-    Callables.bind posOnlyTarget (partialCall [(S "a", 7), (S "b", 2)] [] []).args
-      (partialCall [(S "a", (7 : Nat)), (S "b", 2)] [] []).kwargs = none := by decide
+example : partialCall posOnlyTarget [(S "a", 7), (S "b", 2)] [] []
+    = { args := [7], kwargs := [(S "b", 2)] } := by decide
+example : Callables.bind posOnlyTarget (partialCall posOnlyTarget [(S "a", 7), (S "b", 2)] [] []).args
+      (partialCall posOnlyTarget [(S "a", (7 : Nat)), (S "b", 2)] [] []).kwargs
+    = some [(S "a", 7), (S "b", 2)] := by decide
+
+/-- the residual corner: `def f(a=1, b=2, /)` with `a` ignored (no value) and `b` a field: the loop
+    stops at `a`, `b` stays a keyword, CPython rejects it -/
+def posOnlyGapTarget : List (Param Nat) :=
+  [ { name := S "a", kind := .posOnly, ann := some .plain, dflt := some (.value 1 false) },
+    { name := S "b", kind := .posOnly, ann := some .plain, dflt := some (.value 2 false) } ]
+
+theorem c20_partial_posonly_gap_witness :
+    Callables.bind posOnlyGapTarget (partialCall posOnlyGapTarget [(S "b", 7)] [] []).args
+      (partialCall posOnlyGapTarget [(S "b", (7 : Nat))] [] []).kwargs = none := by decide
 
 theorem c20_partial_call_full_witness : ¬ FullPartialCall := by
   intro h
-  have := h posOnlyTarget [(S "a", 7), (S "b", 2)] [] (fun n => if n = S "a" then 7 else 2)
-    (by simp [posOnlyTarget, S]) (by decide)
+  have := h posOnlyGapTarget [(S "b", 7)] [] (fun n => if n = S "a" then 1 else 7)
+    (by simp [posOnlyGapTarget, S]) (by decide)
     (by intro e he; simp only [List.mem_cons, List.not_mem_nil, or_false] at he
-        rcases he with rfl | rfl
-        · exact ⟨{ name := S "a", kind := .posOnly, ann := some .plain, dflt := none },
-            by simp [posOnlyTarget], rfl⟩
-        · exact ⟨{ name := S "b", kind := .posOrKw, ann := some .plain, dflt := some (.value 2 false) },
-            by simp [posOnlyTarget], rfl⟩)
+        subst he
+        exact ⟨{ name := S "b", kind := .posOnly, ann := some .plain, dflt := some (.value 2 false) },
+            by simp [posOnlyGapTarget], rfl⟩)
     (by intro e he; cases he)
-    (by intro p hp; simp only [posOnlyTarget, List.mem_cons, List.not_mem_nil, or_false] at hp
-        rcases hp with rfl | rfl <;> exact Or.inl (by decide))
-  rw [c20_partial_posonly_witness] at this
+    (by intro p hp; simp only [posOnlyGapTarget, List.mem_cons, List.not_mem_nil, or_false] at hp
+        rcases hp with rfl | rfl
+        · exact Or.inr (by decide)
+        · exact Or.inl (by decide))
+  rw [c20_partial_posonly_gap_witness] at this
   cases this
 
-/-- **Calling the parsed object (partial: `NoPosOnly`).** For a target without positional-only
-    parameters: if every keyword names a parameter and every parameter has a `CallValue` — the
-    explicit keyword, else the parsed field, else (ignored or skipped parameters) its own default —
-    the target is invoked with exactly those values, whatever the number of parameters. -/
+/-- **Calling the parsed object (partial: `PosOnlySupplied`).** For any legal target — positional-only
+    parameters included —: if every keyword names a parameter, every positional-only parameter has
+    a value and every other parameter has a `CallValue` (the explicit keyword, else the parsed field,
+    else its own default), the target is invoked with exactly those values: positional-only ones
+    positionally in signature order, the rest by keyword; whatever the number of parameters. -/
 theorem c20_partial_call (sig : List (Param V)) (fv kw : List (Str × V)) (w : Str → V)
-    (hno : NoPosOnly sig)
+    (hn : sig.Pairwise (fun a b => a.name ≠ b.name)) (hpre : posOnlyPrefix sig = true)
     (hfv : ∀ e ∈ fv, ∃ p ∈ sig, p.name = e.1) (hkw : ∀ e ∈ kw, ∃ p ∈ sig, p.name = e.1)
+    (hpos : PosOnlySupplied sig fv kw w)
     (hcover : ∀ p ∈ sig, CallValue fv kw p (w p.name)) :
-    Callables.bind sig (partialCall fv [] kw).args (partialCall fv [] kw).kwargs
+    Callables.bind sig (partialCall sig fv [] kw).args (partialCall sig fv [] kw).kwargs
       = some (sig.map (fun p => (p.name, w p.name))) := by
-  have hallowed : kwAllowed sig (partialCall fv ([] : List V) kw).kwargs = true := by
+  have hpos' : ∀ p ∈ sig, p.isPosOnly = true → (dictUpdate fv kw).lookup p.name = some (w p.name) := by
+    intro p hp hpo; rw [c20_partial_kwargs_win]; exact hpos p hp hpo
+  obtain ⟨s1, s2, s3, s4⟩ := movePositional_spec w sig (dictUpdate fv kw) hn hpre hpos'
+  have hargs : (partialCall sig fv ([] : List V) kw).args
+      = (sig.filter (·.isPosOnly)).map (fun p => w p.name) := by
+    simp [partialCall, s1]
+  have hkws : (partialCall sig fv ([] : List V) kw).kwargs = (movePositional sig 0 (dictUpdate fv kw)).2 := by
+    simp [partialCall]
+  rw [hargs, hkws]
+  have hallowed : kwAllowed sig (movePositional sig 0 (dictUpdate fv kw)).2 = true := by
     unfold kwAllowed
     rw [List.all_eq_true]
     intro e he
+    have hed := s4 e he
     have : ∃ p ∈ sig, p.name = e.1 := by
-      rcases keys_dictUpdate fv kw e he with ⟨e', he', hk⟩ | ⟨e', he', hk⟩
-      · obtain ⟨p, hp, hn⟩ := hfv e' he'; exact ⟨p, hp, hn.trans hk⟩
-      · obtain ⟨p, hp, hn⟩ := hkw e' he'; exact ⟨p, hp, hn.trans hk⟩
-    obtain ⟨p, hp, hn⟩ := this
+      rcases keys_dictUpdate fv kw e hed with ⟨e', he', hk⟩ | ⟨e', he', hk⟩
+      · obtain ⟨p, hp, hn'⟩ := hfv e' he'; exact ⟨p, hp, hn'.trans hk⟩
+      · obtain ⟨p, hp, hn'⟩ := hkw e' he'; exact ⟨p, hp, hn'.trans hk⟩
+    obtain ⟨p, hp, hpn⟩ := this
     simp only [List.any_eq_true]
     refine ⟨p, hp, ?_⟩
-    have := hno p hp
-    unfold Param.isPosOnly at this
-    simp [hn, this]
-  have hnil : sig.filter (·.isPosOnly) = [] := by
-    rw [List.filter_eq_nil_iff]; intro a ha; simp [hno a ha]
-  have hpre : posOnlyPrefix sig = true :=
-    posOnlyPrefix_of_all sig (by rw [List.all_eq_true]; intro a ha; simp [hno a ha])
-  have key := bindGo_routed w (partialCall fv ([] : List V) kw).kwargs sig hpre
-    (fun p hp hpo => by rw [hno p hp] at hpo; cases hpo)
-    (fun p hp _ => by rw [c20_partial_kwargs_win]; exact hcover p hp)
-  rw [hnil] at key
+    have hnp : p.isPosOnly = false := by
+      cases hpo : p.isPosOnly with
+      | false => rfl
+      | true =>
+        have h0 := s2 p hp hpo
+        rw [hpn] at h0
+        exact absurd h0 (lookup_ne_none_of_mem _ e he)
+    unfold Param.isPosOnly at hnp
+    simp [hpn, hnp]
   unfold Callables.bind
   rw [hallowed]
-  simpa [partialCall] using key
+  simp only [if_true]
+  apply bindGo_routed w _ sig hpre
+  · exact s2
+  · intro p hp hpo
+    rw [s3 p.name (fun q hq hqp e => by
+      have := names_injective hn hq hp e; subst this; rw [hpo] at hqp; cases hqp)]
+    rw [c20_partial_kwargs_win]
+    exact hcover p hp
 
-/-- non-vacuity: `def tgt(a, b=2, *, c, d=4)`, fields `b=7` (parsed), explicit `a=1, c=3, b=9`;
-    `d` is an ignored parameter and keeps its own default -/
+/-- non-vacuity: `def tgt(z, /, a, b=2, *, c, d=4)`, fields `z=5, b=7` (parsed), explicit
+    `a=1, c=3, b=9`; `d` is an ignored parameter and keeps its own default -/
 def partialTarget : List (Param Nat) :=
-  [ { name := S "a", kind := .posOrKw, ann := none, dflt := none },
+  [ { name := S "z", kind := .posOnly, ann := none, dflt := none },
+    { name := S "a", kind := .posOrKw, ann := none, dflt := none },
     { name := S "b", kind := .posOrKw, ann := none, dflt := some (.value 2 false) },
     { name := S "c", kind := .kwOnly, ann := none, dflt := none },
     { name := S "d", kind := .kwOnly, ann := none, dflt := some (.value 4 false) } ]
 
-example : NoPosOnly partialTarget := by decide
+example : posOnlyPrefix partialTarget = true := by decide
 example : Callables.bind partialTarget
-      [] (partialCall [(S "b", 7)] [] [(S "a", 1), (S "c", 3), (S "b", 9)]).kwargs
-    = some [(S "a", 1), (S "b", 9), (S "c", 3), (S "d", 4)] := by decide
+      (partialCall partialTarget [(S "z", 5), (S "b", 7)] [] [(S "a", 1), (S "c", 3), (S "b", 9)]).args
+      (partialCall partialTarget [(S "z", 5), (S "b", 7)] [] [(S "a", 1), (S "c", 3), (S "b", 9)]).kwargs
+    = some [(S "z", 5), (S "a", 1), (S "b", 9), (S "c", 3), (S "d", 4)] := by decide
 example : CallValue [(S "b", (7 : Nat))] [(S "a", 1), (S "c", 3), (S "b", 9)]
     { name := S "d", kind := .kwOnly, ann := none, dflt := some (.value 4 false) } 4 :=
   Or.inr (by decide)
@@ -1103,28 +1193,30 @@ theorem c20_config_options (classAnn ignore : List Str) (ov : List (Str × V × 
           injection hc with hc; subst hc; exact ⟨rfl, rfl, by simp [he]⟩
         · cases hc
 
-/-- **Derive, parse, call (composition).** For a callable without positional-only parameters whose
-    config class `config_for` derives (fields `fs`): whatever values the parse puts into the fields,
-    calling the parsed object with explicit keywords `kw` binds every parameter to its `CallValue`
-    — the field keys are parameter names by `c20_config_options`, so only the keywords and the
+/-- **Derive, parse, call (composition).** For a legal callable whose config class `config_for`
+    derives (fields `fs`): whatever values the parse puts into the fields, calling the parsed object
+    with explicit keywords `kw` binds every parameter to its `CallValue` — the field keys are
+    parameter names by `c20_config_options`, so only the keywords, the positional-only supply and the
     coverage of the non-field (ignored / skipped) parameters remain as hypotheses. -/
 theorem c20_config_then_call (sig : List (Param V)) (csig : List (CParam V))
     (hsame : csig.map (·.name) = sig.map (·.name))
     (classAnn ignore : List Str) (ov : List (Str × V × Shape)) (fs : List (CField V))
     (h : configFor classAnn ignore ov csig = .ok fs) (hinf : Inferable classAnn ignore ov csig)
-    (hno : NoPosOnly sig) (vals : Str → V) (kw : List (Str × V)) (w : Str → V)
+    (hn : sig.Pairwise (fun a b => a.name ≠ b.name)) (hpre : posOnlyPrefix sig = true)
+    (vals : Str → V) (kw : List (Str × V)) (w : Str → V)
     (hkw : ∀ e ∈ kw, ∃ p ∈ sig, p.name = e.1)
+    (hpos : PosOnlySupplied sig (fs.map (fun f => (f.name, vals f.name))) kw w)
     (hcover : ∀ p ∈ sig, CallValue (fs.map (fun f => (f.name, vals f.name))) kw p (w p.name)) :
-    Callables.bind sig (partialCall (fs.map (fun f => (f.name, vals f.name))) [] kw).args
-        (partialCall (fs.map (fun f => (f.name, vals f.name))) [] kw).kwargs
+    Callables.bind sig (partialCall sig (fs.map (fun f => (f.name, vals f.name))) [] kw).args
+        (partialCall sig (fs.map (fun f => (f.name, vals f.name))) [] kw).kwargs
       = some (sig.map (fun p => (p.name, w p.name))) := by
-  apply c20_partial_call sig _ kw w hno _ hkw hcover
+  apply c20_partial_call sig _ kw w hn hpre _ hkw hpos hcover
   intro e he
   obtain ⟨f, hf, rfl⟩ := List.mem_map.mp he
-  obtain ⟨cp, hcp, hn, _⟩ := (c20_config_options classAnn ignore ov csig fs h hinf).2.2 f hf
+  obtain ⟨cp, hcp, hnm, _⟩ := (c20_config_options classAnn ignore ov csig fs h hinf).2.2 f hf
   have : cp.name ∈ sig.map (·.name) := by rw [← hsame]; exact List.mem_map.mpr ⟨cp, hcp, rfl⟩
   obtain ⟨p, hp, hpn⟩ := List.mem_map.mp this
-  exact ⟨p, hp, by simp [hpn, hn]⟩
+  exact ⟨p, hp, by simp [hpn, hnm]⟩
 
 /-! #### full statement and witnesses for `config_for` -/
 
@@ -1228,12 +1320,41 @@ theorem c20_help_unique_class (initE classE : List (Str × Str)) (name h : Str)
     pickHelp initE classE name = some h := by
   simp [pickHelp, hi, hu]
 
-/-- finding C20-help-prefix-match (partial.py:174-178 matches `k.startswith(name)`): an
-    undocumented parameter `b` takes the text of `beta`; with both documented the result is the
-    `pop()` of a two-element set, i.e. it depends on the hash seed (`none` in the model) -/
-theorem c20_help_prefix_witness :
-    pickHelp [] [(S "beta", S "the beta text")] (S "b") = some (S "the beta text") ∧
-    pickHelp [] [(S "b", S "the b text"), (S "beta", S "the beta text")] (S "b") = none := by decide
+/-- **No other parameter's text.** A help candidate for `name` is always the description of an
+    entry whose key's first word is exactly `name` (`name: …` or `name (type): …`) — since f3cc715
+    the text of a longer-named parameter (`beta` for `b`) can no longer leak. -/
+theorem c20_help_exact (es : List (Str × Str)) (name h : Str) (hh : h ∈ helpEntries es name) :
+    ∃ e ∈ es, firstWord e.1 = some name ∧ e.2 = h := by
+  unfold helpEntries at hh
+  rw [mem_dedup] at hh
+  obtain ⟨e, he, rfl⟩ := List.mem_map.mp hh
+  obtain ⟨hm, hf⟩ := List.mem_filter.mp he
+  exact ⟨e, hm, by simpa using hf, rfl⟩
+
+/-- … hence a parameter without an entry of its own gets the empty help -/
+theorem c20_help_undocumented (initE classE : List (Str × Str)) (name : Str)
+    (hi : ∀ e ∈ initE, firstWord e.1 ≠ some name) (hc : ∀ e ∈ classE, firstWord e.1 ≠ some name) :
+    pickHelp initE classE name = some [] := by
+  have h1 : helpEntries initE name = [] := by
+    cases h : helpEntries initE name with
+    | nil => rfl
+    | cons x xs =>
+      obtain ⟨e, he, hf, _⟩ := c20_help_exact initE name x (by rw [h]; simp)
+      exact absurd hf (hi e he)
+  have h2 : helpEntries classE name = [] := by
+    cases h : helpEntries classE name with
+    | nil => rfl
+    | cons x xs =>
+      obtain ⟨e, he, hf, _⟩ := c20_help_exact classE name x (by rw [h]; simp)
+      exact absurd hf (hc e he)
+  simp [pickHelp, h1, h2]
+
+/-- regression (f3cc715, finding C20-help-prefix-match): an undocumented `b` no longer takes the text
+    of `beta`; with both documented `b` gets its own text, deterministically; `b (int)` counts -/
+example : pickHelp [] [(S "beta", S "the beta text")] (S "b") = some [] := by decide
+example : pickHelp [] [(S "b", S "the b text"), (S "beta", S "the beta text")] (S "b")
+    = some (S "the b text") := by decide
+example : pickHelp [] [(S "b (int)", S "typed"), (S "beta", S "other")] (S "b") = some (S "typed") := by decide
 
 example : parseArgsDoc "R.\n\n Args:\n     s: 1:2\n         or 3:4\n     m (str): one of: a, b\n\n Returns:\n     d: x\n ".toList
     = .ok [(S "s", S "1:2 or 3:4"), (S "m (str)", S "one of: a, b")] := by
